@@ -111,6 +111,11 @@ func runC12(a args) error {
 			if r.Chance(0.3) {
 				evs[j].ID = ""
 			}
+			// the same publisher-chosen id for two different updates in a row (a resource's IRI, version after version):
+			// each goes out with its own type, retry and data
+			if j > 0 && evs[j-1].ID != "" && r.Chance(0.3) {
+				evs[j].ID = evs[j-1].ID
+			}
 		}
 		c, desc, err := c12Stream(kind, replay, evs)
 		if err != nil {
